@@ -17,6 +17,7 @@ import SpecKitV.Gen.CudaKernels
 import SpecKitV.Gen.Attrs
 import SpecKitV.Gen.Sched
 import SpecKitV.Gen.Utils
+import SpecKitV.Gen.Noise
 
 namespace Drv
 
@@ -422,6 +423,22 @@ def opGenUtil : M String := do
   | "kaiser_rov" => return fmt (Gen.kaiser_rov v)
   | _ => throw s!"genutil:{which}"
 
+/-- generated cascade: `gencascade <a Arr2> <b Arr2> <zi Arr2> <xs arr>` → `ys… | final zi[:,0]…` -/
+def opGenCascade : M String := do
+  let a ← arr2
+  let b ← arr2
+  let zi ← arr2
+  let xs := arrF (← fltArr)
+  let (ys, z) := Gen._numba_lfilter_cascade xs a b zi
+  return joinF ((List.range ys.n).map ys.get) ++ " | " ++ joinF ((List.range z.n).map (fun i => z.get i 0))
+
+def opGenCoeffs : M String := do
+  let fmin ← flt
+  let fmax ← flt
+  let fs ← flt
+  let (a0, a1, b1) := Gen._calc_filter_coeffs fmin fmax fs
+  return s!"{fmt a0} {fmt a1} {fmt b1}"
+
 def opSingleBin : M String := do
   let N ← nat
   let L ← nat
@@ -455,6 +472,8 @@ def dispatch : M String := do
   | "kaiser" => opKaiser
   | "singlebin" => opSingleBin
   | "genwalk" => opGenWalk
+  | "gencascade" => opGenCascade
+  | "gencoeffs" => opGenCoeffs
   | "genutil" => opGenUtil
   | "ping" => pure "pong"
   | _ => throw s!"op:{op}"
